@@ -51,7 +51,7 @@ EigMats == <<
   [M |-> Mt(3, 3, <<G(1), G(1), GZ, G(1), G(1), GZ, GZ, GZ, G(2)>>), lams |-> <<Sc(G(2)), Sc(GZ)>>],   \* two-dimensional eigenspace
   [M |-> Mt(3, 3, <<G(2), GZ, GZ, GZ, G(3), G(1), GZ, GZ, G(3)>>), lams |-> <<Sc(G(2)), Sc(G(3))>>] >> \* Jordan block
 EigSeeds == {[kind |-> "seed", mi |-> mi, li |-> li] : mi \in 1..Len(EigMats), li \in 1..3}      \* li beyond the table: no case
-Ent2 == {GZ, G(1), G(-1), G(2), I, GNeg(I), <<1, 1>>}
+Ent2 == {GZ, G(1), G(-1), G(2), I, GNeg(I), <<1, 1>>} \cup (IF Thorough THEN {G(-2), <<1, -1>>, <<2, 1>>} ELSE {})
 Ent3 == {GZ, G(1), G(-1)}
 Box(n) == IF n = 2 THEN {<<a, b>> : a \in Ent2, b \in Ent2}
           ELSE {<<a, b, d>> : a \in Ent3, b \in Ent3, d \in Ent3} \cup {<<G(1), I, GZ>>, <<I, I, G(2)>>, <<G(1), G(1), I>>, <<G(2), G(2), G(1)>>}
@@ -98,12 +98,13 @@ SpanParams(si) == [i \in 1..Len(SpanSets[si]) |-> Vc(SpanSets[si][i])]
 BuildSpan(x) == Simple("span", x.tol, x.jit, << SpanParams(x.si) >>, << VReduce(VcQ(SpanVec(x), x.sden)) >>)
 
 (* ------------------------------------------------------------------ phase *)
-PhaseTargets == << <<G(1), I>>, <<G(1), G(2), G(2)>>, <<<<1, 2>>, <<2, -1>>>>, <<GZ, G(1)>>, <<G(3), G(4)>>, <<G(1), GZ, I, <<1, 1>>>> >>
+PhaseTargets == << <<G(1), I>>, <<G(1), G(2), G(2)>>, <<<<1, 2>>, <<2, -1>>>>, <<GZ, G(1)>>, <<G(3), G(4)>>, <<G(1), GZ, I, <<1, 1>>>>,
+                   <<<<2, -1>>, <<1, 1>>, G(3)>>, <<G(-2), I>>, <<<<1, 1>>, <<1, -1>>, GZ, G(2)>>, <<G(2), G(-1), G(2)>> >>
 Units == {[z |-> G(1), d |-> 1], [z |-> G(-1), d |-> 1], [z |-> I, d |-> 1], [z |-> GNeg(I), d |-> 1],
           [z |-> <<3, 4>>, d |-> 5], [z |-> <<4, 3>>, d |-> 5], [z |-> <<-3, 4>>, d |-> 5], [z |-> <<3, -4>>, d |-> 5],
           [z |-> <<-4, -3>>, d |-> 5], [z |-> <<5, 12>>, d |-> 13]}
 PhaseVariants == {"none", "step", "stepi", "scale2", "half", "conj", "zero", "negfirst", "swap"}
-PhaseSeeds == {[kind |-> "seed", ti |-> i] : i \in 1..Len(PhaseTargets)}
+PhaseSeeds == {[kind |-> "seed", ti |-> i] : i \in 1..(IF Thorough THEN Len(PhaseTargets) ELSE 6)}
 PhaseCases(s) == {x \in [kind : {"phase"}, ti : {s.ti}, unit : Units, var : PhaseVariants, pos : 1..Len(PhaseTargets[s.ti]),
                          jit : {0, 1}, tol : {"abs", "pct"}] :
                     /\ x.var \notin {"step", "stepi", "negfirst"} => x.pos = 1
